@@ -1,5 +1,5 @@
 (* Statement pins for the codec area. *)
-From FlacCodec Require Import Wf Spec Stream Progress EncChoice Damage Prefix Interrupted Inverse Inverse_frame StreamRd StreamRd_proofs Enc Enc_proofs Props_codec.
+From FlacCodec Require Import Wf Spec Stream Progress EncChoice Damage Prefix Interrupted Inverse Inverse_frame StreamRd StreamRd_proofs Enc Enc_proofs File Props_codec.
 From FlacBase Require Import Crc.
 Open Scope N_scope.
 Check (C17_parse_inverts_write : forall si f bytes rest,
@@ -81,6 +81,14 @@ Check (C19_encoder_frame_bound : forall o L si rate bps number chans bytes,
 Check (C19_encoder_constant_block : forall o L bps c n,
   (1 <= n)%nat -> fits bps c = true -> 1 <= bps -> bps <= 32 ->
   sf_bits bps (enc_sub o L bps (repeat c n)) <= 96).
+Check (C01_encoder_file_lossless : forall o L si others blocks bytes,
+  enc_blocks o L (si_rate si) (si_bps si) 0 blocks = Some bytes ->
+  si_ok si -> blocks_ok others ->
+  Forall (block_ok si (si_bps si)) blocks ->
+  N.of_nat (length blocks) <= MAX_FRAME_NUMBER + 1 ->
+  short_only_last si blocks ->
+  (si_total si = 0 \/ blocks_samples blocks = si_total si) ->
+  dec_stream (file_of si others bytes) = Some (si, map interleave_frame blocks, EndEof)).
 (* block_ok is what it says *)
 Check (eq_refl : block_ok = fun si bps chans =>
   (1 <= length chans <= 8)%nat /\ 1 <= bps /\ bps <= 32 /\
